@@ -270,6 +270,14 @@ def splitAt (cfg : SplitCfg) (dflt : ν) (d : Nat) : (k : Nat) → Tree Int ν (
 
 end
 
+/-- the sub-tree reached by following a coordinate path of length `k` -/
+def subAt {ν : Type} (d' : Nat) : (k : Nat) → Tree Int ν (d' + k) → List Int → Option (Tree Int ν d')
+  | 0, t, [] => some t
+  | 0, _, _ :: _ => none
+  | _ + 1, _, [] => none
+  | k + 1, t, c :: cs =>
+    (lookup (show List (Int × Tree Int ν (d' + k)) from t) c).bind (fun s => subAt d' k s cs)
+
 /-! ### Declarative side: partition membership and the specifications -/
 
 section
